@@ -8,7 +8,7 @@ use proptest::prelude::*;
 use serde::{Deserialize, Serialize};
 use std::str::FromStr;
 
-pub const RULE: &str = "generated durations of either sign up to 10 000 years (half snapped to a multiple of a unit +- a few ns, a quarter beyond 104 days) for decomposition, Display, from_str(Display) and the serde round trip; model-generated text: 1-7 'value unit' groups in descending unit order over every spelling of the parser's table with integer and decimal values; [+-]HH:MM[:SS] and [+-]HHMM[SS] offsets; the spellings table enumerated exhaustively; oracle = integer decomposition of the i128 count and its rendering, sum of trunc(fl(value x unit)) per group for parsed text; non-trivial = |count| > 104 days, within 3 ns of a multiple of a unit >= 1 s, negative, or a parse case with >= 3 groups or a fractional value; distinct = distinct case tuples (hash set, capped: lower bound)";
+pub const RULE: &str = "generated durations of either sign up to 10 000 years (half snapped to a multiple of a unit +- a few ns, a quarter beyond 104 days) (one case in eleven over the whole representable range) for decomposition, Display, from_str(Display) and the serde round trip; model-generated text: 1-7 'value unit' groups in descending unit order over every spelling of the parser's table with integer and decimal values; [+-]HH:MM[:SS] and [+-]HHMM[SS] offsets; the spellings table enumerated exhaustively; oracle = integer decomposition of the i128 count and its rendering, sum of trunc(fl(value x unit)) per group for parsed text; non-trivial = |count| > 104 days, within 3 ns of a multiple of a unit >= 1 s, negative, or a parse case with >= 3 groups or a fractional value; distinct = distinct case tuples (hash set, capped: lower bound)";
 
 pub const ASSUMPTIONS: &[&str] = &[
     "the sign returned by decompose() is only required to be negative exactly for negative durations (the suite pins 0 for positive durations below one century)",
@@ -64,6 +64,8 @@ pub struct Dec {
 fn dec_strategy() -> BS<Dec> {
     wunion(vec![
         (6, count_human()),
+        // the whole representable range: the bounds, far centuries, powers of two
+        (1, count_any().prop_map(clamp).boxed()),
         // exact multiples of a century (and of 36525 days) +- a few ns, either sign
         (1, (-100i128..=100, small_delta(2)).prop_map(|(k, d)| k * NPC + d).boxed()),
         // short negative forms whose text has a sign followed by two digits and a unit
@@ -220,9 +222,16 @@ pub fn text_oracle(c: &Text) -> Verdict {
     let mut sum = 0i128;
     let mut fractional = false;
     for (u, _, v) in &c.groups {
-        let x: f64 = v.parse().unwrap();
         fractional |= v.contains('.');
-        sum += f64_trunc_i128(x * W[*u] as f64);
+        // a whole number denotes exactly that many units (the text Display prints has this shape, and must parse back
+        // to the identical duration); a decimal fraction is a float count of the unit (C18's semantics)
+        sum += match v.parse::<i64>() {
+            Ok(k) => k as i128 * W[*u],
+            Err(_) => {
+                let x: f64 = v.parse().unwrap();
+                f64_trunc_i128(x * W[*u] as f64)
+            }
+        };
     }
     // all terms are non-negative and the library adds them with saturation
     let sum = clamp(sum);
